@@ -10,133 +10,248 @@ import (
 	"lachk/core"
 )
 
-// c03Absorb decides that the fork marker is absorbing. The facts are stated over CFG edges and value
-// provenance, so that the guard may be an if-block, a negated early continue, a switch case or a
-// boolean local, and the entries may be kept in locals or read in place.
-func c03Absorb(c *core.Ctx) {
-	p := c.P
-	const (
-		vecGet = "vecfc.HighestBeforeSeq.Get"
-		vecSet = "vecfc.HighestBeforeSeq.Set"
-		vecSFD = "vecfc.HighestBeforeSeq.SetForkDetected"
-	)
-	isMarker := func(f *core.FuncInfo, e ast.Expr) bool {
-		v, ok := f.ObjOf(resolveLocal(f, e)).(*types.Var)
-		return ok && p.ObjName(v) == "vecfc.forkDetectedSeq"
+const (
+	c03VecGet = "vecfc.HighestBeforeSeq.Get"
+	c03VecSet = "vecfc.HighestBeforeSeq.Set"
+	c03VecSFD = "vecfc.HighestBeforeSeq.SetForkDetected"
+)
+
+// c03Vectors reads vector-clock expressions of one anchor method (CollectFrom, GatherFrom) whose
+// receiver is `self`. Every question is asked in a view (c01Effect with Caller = the anchor): the direct
+// view (G = the anchor) or a helper view (G = a module function the anchor calls at At), in which the
+// helper's receiver and parameters stand for the anchor's expressions at the call. So the per-entry
+// logic may live in the anchor's loop body or in a helper that is handed the index and/or the entries.
+type c03Vectors struct {
+	p    *core.Prog
+	self *types.Var
+}
+
+func (x c03Vectors) isMarker(f *core.FuncInfo, e ast.Expr) bool {
+	v, ok := f.ObjOf(resolveLocal(f, e)).(*types.Var)
+	return ok && x.p.ObjName(v) == "vecfc.forkDetectedSeq"
+}
+
+// entryCall: e denotes (a local holding) vec.Get(i) in f; returns the call.
+func (x c03Vectors) entryCall(f *core.FuncInfo, e ast.Expr) *ast.CallExpr {
+	r := resolveLocal(f, e)
+	if call, ok := r.(*ast.CallExpr); ok && calleeName(f, call) == c03VecGet {
+		return call
 	}
-	// entryCall: e denotes (a local holding) vec.Get(i); returns the call
-	entryCall := func(f *core.FuncInfo, e ast.Expr) *ast.CallExpr {
-		x := resolveLocal(f, e)
-		if call, ok := x.(*ast.CallExpr); ok && calleeName(f, call) == vecGet {
-			return call
-		}
-		// a local that is modified field-wise after it was read (mySeq.Seq = …) is still that entry
-		if v := varOf(f, x); v != nil {
-			var found *ast.CallExpr
-			n := 0
-			for _, a := range assignsToVar(f, v) {
-				n++
-				if call, ok := ast.Unparen(a.RHS).(*ast.CallExpr); ok && a.RHS != nil && calleeName(f, call) == vecGet {
-					found = call
-				}
-			}
-			if n == 1 {
-				return found
+	// a local that is modified field-wise after it was read (mySeq.Seq = …) is still that entry
+	if v := varOf(f, r); v != nil {
+		var found *ast.CallExpr
+		n := 0
+		for _, a := range assignsToVar(f, v) {
+			n++
+			if call, ok := ast.Unparen(a.RHS).(*ast.CallExpr); ok && a.RHS != nil && calleeName(f, call) == c03VecGet {
+				found = call
 			}
 		}
-		return nil
+		if n == 1 {
+			return found
+		}
 	}
-	recvOf := func(f *core.FuncInfo, call *ast.CallExpr) *types.Var {
+	return nil
+}
+
+// mine: the vector expression v of view w denotes the anchor's receiver. known=false when v is neither a
+// variable of the anchor nor a parameter/receiver of the helper (a helper-local vector).
+func (x c03Vectors) mine(w c01Effect, v ast.Expr) (mine, known bool) {
+	rv := canonVar(w.G, varOf(w.G, v))
+	if rv == nil {
+		return false, false
+	}
+	if w.G == w.Caller {
+		return rv == x.self, true
+	}
+	_, cv, bound := w.bindVar(rv)
+	if !bound {
+		return false, false
+	}
+	return cv != nil && cv == x.self, true
+}
+
+// c03Entry is an entry V.Get(i) as seen from a view: whose vector it is and, in fn, the index expression.
+type c03Entry struct {
+	mine  bool
+	index ast.Expr
+	fn    *core.FuncInfo
+}
+
+// entryOf: e (in w.G) denotes a vector entry: a Get call (possibly kept in a local), or a parameter of
+// the helper that receives one from the anchor.
+func (x c03Vectors) entryOf(w c01Effect, e ast.Expr) (c03Entry, bool) {
+	if call := x.entryCall(w.G, e); call != nil && len(call.Args) == 1 {
 		sel, ok := ast.Unparen(call.Fun).(*ast.SelectorExpr)
 		if !ok {
-			return nil
+			return c03Entry{}, false
 		}
-		return canonVar(f, varOf(f, sel.X))
+		m, known := x.mine(w, sel.X)
+		if !known {
+			// a helper-local vector cannot be the anchor's receiver
+			if w.G == w.Caller || varOf(w.G, sel.X) == nil {
+				return c03Entry{}, false
+			}
+		}
+		return c03Entry{mine: m, index: call.Args[0], fn: w.G}, true
 	}
-	// forkTest: the fact says "entry is (not) fork-detected"; returns the vector variable and the index
-	// expression of the entry
-	forkTest := func(f *core.FuncInfo, ft core.Fact) (vec *types.Var, index ast.Expr, truth bool, ok bool) {
-		e, truth, isB := c01BoolOperand(f.Info(), ft)
-		if !isB {
-			return nil, nil, false, false
+	if w.G != w.Caller && w.At != nil {
+		if arg, _, bound := w.bindVar(varOf(w.G, resolveLocal(w.G, e))); bound && arg != nil {
+			return x.entryOf(c01Effect{Caller: w.Caller, G: w.Caller}, arg)
 		}
-		call, isC := resolveLocal(f, e).(*ast.CallExpr)
-		if !isC {
-			return nil, nil, false, false
-		}
-		switch calleeName(f, call) {
-		case "vecfc.BranchSeq.IsForkDetected":
-			sel, isS := ast.Unparen(call.Fun).(*ast.SelectorExpr)
-			if !isS {
-				return nil, nil, false, false
-			}
-			get := entryCall(f, sel.X)
-			if get == nil || len(get.Args) != 1 {
-				return nil, nil, false, false
-			}
-			return recvOf(f, get), get.Args[0], truth, true
-		case "vecfc.HighestBeforeSeq.IsForkDetected":
-			if len(call.Args) != 1 {
-				return nil, nil, false, false
-			}
-			return recvOf(f, call), call.Args[0], truth, true
-		}
-		return nil, nil, false, false
 	}
+	return c03Entry{}, false
+}
 
+// forkTest: the fact says "entry is (not) fork-detected".
+func (x c03Vectors) forkTest(w c01Effect, ft core.Fact) (c03Entry, bool, bool) {
+	g := w.G
+	e, truth, isB := c01BoolOperand(g.Info(), ft)
+	if !isB {
+		return c03Entry{}, false, false
+	}
+	call, isC := resolveLocal(g, e).(*ast.CallExpr)
+	if !isC {
+		return c03Entry{}, false, false
+	}
+	sel, isS := ast.Unparen(call.Fun).(*ast.SelectorExpr)
+	if !isS {
+		return c03Entry{}, false, false
+	}
+	switch calleeName(g, call) {
+	case "vecfc.BranchSeq.IsForkDetected":
+		en, ok := x.entryOf(w, sel.X)
+		return en, truth, ok
+	case "vecfc.HighestBeforeSeq.IsForkDetected":
+		if len(call.Args) != 1 {
+			return c03Entry{}, false, false
+		}
+		m, known := x.mine(w, sel.X)
+		if !known && (w.G == w.Caller || varOf(g, sel.X) == nil) {
+			return c03Entry{}, false, false
+		}
+		return c03Entry{mine: m, index: call.Args[0], fn: g}, truth, true
+	}
+	return c03Entry{}, false, false
+}
+
+// forkOf: matcher for "the entry of (my | the other) vector is (not) fork-detected" in view w; boolean
+// locals holding the test are looked through.
+func (x c03Vectors) forkOf(w c01Effect, mine, want bool) func(core.Fact) bool {
+	return c01FactThrough(w.G, func(ft core.Fact) bool {
+		en, truth, ok := x.forkTest(w, ft)
+		return ok && truth == want && en.mine == mine
+	})
+}
+
+// selfWrites: the Set/SetForkDetected calls of w.G on the anchor's receiver.
+func (x c03Vectors) selfWrites(w c01Effect) []*core.CallSite {
+	var out []*core.CallSite
+	for _, cs := range w.G.CallsTo(c03VecSet, c03VecSFD) {
+		if m, known := x.mine(w, cs.Recv()); known && m {
+			out = append(out, cs)
+		}
+	}
+	return out
+}
+
+// views: the direct view and the helper views of the anchor. The vector primitives themselves are
+// effects, not helpers.
+func (x c03Vectors) views(anchor *core.FuncInfo) []c01Effect {
+	var out []c01Effect
+	for _, w := range c01HelperViews(anchor) {
+		if w.At != nil {
+			switch w.At.Name {
+			case c03VecGet, c03VecSet, c03VecSFD, "vecfc.BranchSeq.IsForkDetected", "vecfc.HighestBeforeSeq.IsForkDetected":
+				continue
+			}
+		}
+		out = append(out, w)
+	}
+	return out
+}
+
+// c03Absorb decides that the fork marker is absorbing. The facts are stated over CFG edges and value
+// provenance, so that the guard may be an if-block, a negated early continue, a switch case or a
+// boolean local, the entries may be kept in locals or read in place, and the per-entry logic may be
+// the loop body or a helper method called from it.
+func c03Absorb(c *core.Ctx) {
+	p := c.P
 	c.Clause("C03.absorb", func() {
 		cf := c.Fn("vecfc.HighestBeforeSeq.CollectFrom")
 		self := cf.Recv()
 		c.Need(self != nil, "CollectFrom has a named receiver")
-		forkOf := func(mine bool, want bool) func(core.Fact) bool {
-			return func(ft core.Fact) bool {
-				vec, _, truth, ok := forkTest(cf, ft)
-				return ok && truth == want && vec != nil && (vec == self) == mine
+		x := c03Vectors{p: p, self: self}
+		direct := c01Effect{Caller: cf, G: cf}
+		n, nEdges, nSFD := 0, 0, 0
+		okF := true
+		var witF string
+		for _, w := range x.views(cf) {
+			g := w.G
+			var sfd []core.Point // writes that make self's entry fork-detected
+			for _, cs := range x.selfWrites(w) {
+				n++
+				if cs.Name == c03VecSFD || (len(cs.Call.Args) == 2 && x.isMarker(g, cs.Call.Args[1])) {
+					sfd = append(sfd, cs.Pt)
+				}
+				ok, wit := g.GuardedBy(cs.Pt, x.forkOf(w, true, false))
+				if !ok && g != cf {
+					// the helper may be called under the guard
+					ok, _ = cf.GuardedBy(w.At.Pt, x.forkOf(direct, true, false))
+				}
+				c.Check(ok, "an entry is overwritten only while not fork-detected", "T17 Typestate", cs.Pos(), "every write of self's entry is on the !mySeq.IsForkDetected() edge", "a fork-detected entry can be overwritten by a plain sequence: a cheater visible to a parent disappears from the child's view ("+g.DescribePath(wit)+")")
 			}
-		}
-		n := 0
-		var sfd []core.Point // writes that make self's entry fork-detected
-		for _, cs := range cf.CallsTo(vecSet, vecSFD) {
-			if canonVar(cf, varOf(cf, cs.Recv())) != self {
+			nSFD += len(sfd)
+			// his fork => my fork, unless mine is fork-detected already: from every edge on which the source
+			// entry is fork-detected, the iteration cannot end (next iteration, or return) without marking,
+			// except over an edge on which self's entry is fork-detected
+			edges := edgesWithFact(g, x.forkOf(w, false, true))
+			if len(edges) == 0 {
 				continue
 			}
-			n++
-			if cs.Name == vecSFD || (len(cs.Call.Args) == 2 && isMarker(cf, cs.Call.Args[1])) {
-				sfd = append(sfd, cs.Pt)
+			nEdges += len(edges)
+			isSet := core.PointSet(sfd...)
+			already := g.GuardEdges(x.forkOf(w, true, true))
+			hisClean := g.GuardEdges(x.forkOf(w, false, false))
+			skip := func(b *cfg.Block, s int) bool { return already(b, s) || hisClean(b, s) }
+			for _, e := range edges {
+				// stated from the entry of the iteration, so that a guard weakened by an extra conjunct is
+				// seen: an iteration ends without marking only over an edge that says "source entry not
+				// fork-detected" or "own entry fork-detected already"
+				loop := enclosingLoop(g, posOf(core.Point{B: e.B, I: len(e.B.Nodes) - 1}))
+				q := core.PathQuery{F: g, Avoid: isSet, AvoidEdge: skip, TargetExit: true}
+				switch {
+				case loop != nil:
+					head, done := g.LoopOf(loop)
+					if head == nil || len(head.Succs) == 0 {
+						okF = false
+						continue
+					}
+					q.From = blockEntry(head.Succs[0])
+					q.TargetBlock = func(b *cfg.Block) bool { return b == head || (done != nil && b == done) }
+				case g != cf:
+					// the helper is the body of the iteration: it must be entered in every iteration
+					q.From = g.Entry()
+					if isSet(q.From) {
+						continue
+					}
+					if ok, wit := c03EveryIterationCalls(cf, w.At); !ok {
+						okF, witF = false, cf.DescribePath(wit)
+					}
+				default:
+					okF = false
+					continue
+				}
+				if path, found := q.Find(); found {
+					okF, witF = false, g.DescribePath(path)
+				}
 			}
-			ok, wit := cf.GuardedBy(cs.Pt, forkOf(true, false))
-			c.Check(ok, "an entry is overwritten only while not fork-detected", "T17 Typestate", cs.Pos(), "every write of self's entry is on the !mySeq.IsForkDetected() edge", "a fork-detected entry can be overwritten by a plain sequence: a cheater visible to a parent disappears from the child's view ("+cf.DescribePath(wit)+")")
 		}
 		c.ExpectAtLeast("entry writes in CollectFrom", n, 3)
-		// his fork => my fork, unless mine is fork-detected already: from every edge on which the source
-		// entry is fork-detected, the iteration cannot end (next iteration, or return) without marking,
-		// except over an edge on which self's entry is fork-detected
-		edges := edgesWithFact(cf, forkOf(false, true))
-		okF := len(edges) >= 1 && len(sfd) >= 1
-		var witF []core.Point
-		isSet := core.PointSet(sfd...)
-		already := cf.GuardEdges(forkOf(true, true))
-		hisClean := cf.GuardEdges(forkOf(false, false))
-		for _, e := range edges {
-			// stated from the entry of the iteration, so that a guard weakened by an extra conjunct is
-			// seen: an iteration ends without marking only over an edge that says "source entry not
-			// fork-detected" or "own entry fork-detected already"
-			head, done := cf.LoopOf(enclosingLoop(cf, posOf(core.Point{B: e.B, I: len(e.B.Nodes) - 1})))
-			if head == nil || len(head.Succs) == 0 {
-				okF = false
-				continue
-			}
-			path, found := core.PathQuery{F: cf, From: blockEntry(head.Succs[0]), Avoid: isSet,
-				AvoidEdge:   func(b *cfg.Block, s int) bool { return already(b, s) || hisClean(b, s) },
-				TargetExit:  true,
-				TargetBlock: func(b *cfg.Block) bool { return b == head || (done != nil && b == done) }}.Find()
-			if found {
-				okF, witF = false, path
-			}
-		}
-		c.Check(okF, "a fork-detected source entry makes the entry fork-detected", "T17 Typestate", cf.Pos(), "the hisSeq.IsForkDetected() edge always reaches SetForkDetected in the same iteration (unless the entry is fork-detected already)", "a fork seen by a parent is not propagated to the child ("+cf.DescribePath(witF)+")")
+		okF = okF && nEdges >= 1 && nSFD >= 1
+		c.Check(okF, "a fork-detected source entry makes the entry fork-detected", "T17 Typestate", cf.Pos(), "the hisSeq.IsForkDetected() edge always reaches SetForkDetected in the same iteration (unless the entry is fork-detected already)", "a fork seen by a parent is not propagated to the child ("+witF+")")
 
-		c03Gather(c, forkTest, entryCall, isMarker)
+		c03Gather(c, p)
 
 		// engine: marking one branch marks all branches of the creator
 		sf := c.Fn("vecengine.Engine.setForkDetected")
@@ -145,7 +260,7 @@ func c03Absorb(c *core.Ctx) {
 			if !methodNamed(cs.Name, "SetForkDetected") || len(cs.Call.Args) != 1 {
 				continue
 			}
-			it, isIt := core.IterationOf(sf, enclosingLoop(sf, cs.Pos()), c01Resolver(sf))
+			it, isIt := c01IterationOf(sf, enclosingLoop(sf, cs.Pos()))
 			if !isIt || !it.FromZero || it.Coll == nil || !it.IsElem(cs.Call.Args[0], c01Resolver(sf)) {
 				continue
 			}
@@ -161,8 +276,8 @@ func c03Absorb(c *core.Ctx) {
 		is := c.Fn("vecfc.BranchSeq.IsForkDetected")
 		st := c.Fn("vecfc.HighestBeforeSeq.SetForkDetected")
 		okW := false
-		for _, cs := range st.CallsTo(vecSet) {
-			if len(cs.Call.Args) == 2 && isMarker(st, cs.Call.Args[1]) {
+		for _, cs := range st.CallsTo(c03VecSet) {
+			if len(cs.Call.Args) == 2 && x.isMarker(st, cs.Call.Args[1]) {
 				okW = true
 			}
 		}
@@ -173,13 +288,27 @@ func c03Absorb(c *core.Ctx) {
 				continue
 			}
 			if cm, ok := core.NormCmp(core.Fact{Expr: resolveLocal(is, r.Results[0]), Truth: true}); ok && cm.Op == token.EQL && cm.R != nil {
-				if (isMarker(is, cm.L) && canonVar(is, varOf(is, cm.R)) == is.Recv()) || (isMarker(is, cm.R) && canonVar(is, varOf(is, cm.L)) == is.Recv()) {
+				if (x.isMarker(is, cm.L) && canonVar(is, varOf(is, cm.R)) == is.Recv()) || (x.isMarker(is, cm.R) && canonVar(is, varOf(is, cm.L)) == is.Recv()) {
 					okR = is.Recv() != nil
 				}
 			}
 		}
 		c.Check(okW && okR, "writer and reader of the fork marker agree", "T14 CodecPair", st.Pos(), "SetForkDetected stores forkDetectedSeq and IsForkDetected compares with it", "the fork marker written is not the one tested")
 	})
+}
+
+// c03EveryIterationCalls: the call is made on every path through one iteration of the loop around it
+// (without a loop: on every path through the function).
+func c03EveryIterationCalls(f *core.FuncInfo, at *core.CallSite) (bool, []core.Point) {
+	if loop := enclosingLoop(f, at.Pos()); loop != nil {
+		head, done := f.LoopOf(loop)
+		return c01EveryIteration(f, head, done, []core.Point{at.Pt})
+	}
+	path, found := core.PathQuery{F: f, From: f.Entry(), Avoid: core.PointSet(at.Pt), TargetExit: true}.Find()
+	if f.Entry() == at.Pt {
+		found = false
+	}
+	return !found, path
 }
 
 // c03Gather: when the branches of one creator are merged into the creator's entry, a fork-detected
@@ -190,7 +319,12 @@ func c03Absorb(c *core.Ctx) {
 //	R2  from the edge on which the branch is fork-detected, every path to the function's end stores a
 //	    fork-detected value into self's entry `to` (the branch entry itself, directly or through an
 //	    accumulator that is not reassigned afterwards, or the marker), and no other value after it.
-func c03Gather(c *core.Ctx, forkTest func(*core.FuncInfo, core.Fact) (*types.Var, ast.Expr, bool, bool), entryCall func(*core.FuncInfo, ast.Expr) *ast.CallExpr, isMarker func(*core.FuncInfo, ast.Expr) bool) {
+//
+// The scan over `from` may be written in GatherFrom itself or in a module function whose result
+// GatherFrom stores into self's entry (`self.Set(to, other.highestAmong(from))`): the results of that
+// function then take the place of the stores (R2: from the fork edge every path returns a fork-detected
+// value), and the store of its result must be the last store of GatherFrom into entry `to`.
+func c03Gather(c *core.Ctx, p *core.Prog) {
 	gf := c.Fn("vecfc.HighestBeforeSeq.GatherFrom")
 	self := gf.Recv()
 	to, from := gf.Param(0), gf.Param(2)
@@ -200,93 +334,140 @@ func c03Gather(c *core.Ctx, forkTest func(*core.FuncInfo, core.Fact) (*types.Var
 		c.Undecided(key, "T17 Typestate", gf.Pos(), "GatherFrom's receiver/parameters are not named")
 		return
 	}
-	res := c01Resolver(gf)
-	// the iteration over `from`
-	var it *core.Iteration
-	gf.InspectOwn(func(n ast.Node) bool {
-		switch n.(type) {
-		case *ast.ForStmt, *ast.RangeStmt:
-			if x, ok := core.IterationOf(gf, n.(ast.Stmt), res); ok && it == nil && x.Coll != nil && canonVar(gf, varOf(gf, x.Coll)) == from {
-				it = x
-			}
-		}
-		return true
-	})
-	if it == nil || !it.FromZero || it.Head == nil || len(it.Head.Succs) == 0 {
-		c.Fail(key, "T17 Typestate", gf.Pos(), "GatherFrom does not iterate over all the creator's branches (`from`) from the first one: "+bad)
-		return
-	}
-	// fork test of this iteration's branch in the other vector
-	branchFork := func(want bool) func(core.Fact) bool {
-		return func(ft core.Fact) bool {
-			vec, index, truth, ok := forkTest(gf, ft)
-			return ok && truth == want && vec != self && it.IsElem(index, res)
-		}
-	}
-	isBranchEntry := func(e ast.Expr) bool {
-		call := entryCall(gf, e)
-		if call == nil || len(call.Args) != 1 {
-			return false
-		}
-		sel, ok := ast.Unparen(call.Fun).(*ast.SelectorExpr)
-		return ok && canonVar(gf, varOf(gf, sel.X)) != self && it.IsElem(call.Args[0], res)
-	}
-	body := core.Point{B: it.Head.Succs[0], I: 0}
-	endOfIter := func(b *cfg.Block) bool { return b == it.Head || (it.Done != nil && b == it.Done) }
-	tested := func(b *cfg.Block, s int) bool {
-		return gf.GuardEdges(branchFork(true))(b, s) || gf.GuardEdges(branchFork(false))(b, s)
-	}
-	// R1
-	if path, found := (core.PathQuery{F: gf, From: body, AvoidEdge: tested, TargetBlock: endOfIter, TargetExit: true}).Find(); found {
-		c.Fail(key, "T17 Typestate (R1: every branch is tested)", it.Stmt.Pos(), "a branch of the creator can be merged without being tested for the fork marker ("+gf.DescribePath(path)+"): "+bad)
-		return
-	}
-	// R2
+	x := c03Vectors{p: p, self: self}
 	var stores []*core.CallSite
-	for _, cs := range gf.CallsTo("vecfc.HighestBeforeSeq.Set", "vecfc.HighestBeforeSeq.SetForkDetected") {
+	for _, cs := range gf.CallsTo(c03VecSet, c03VecSFD) {
 		if canonVar(gf, varOf(gf, cs.Recv())) == self {
 			stores = append(stores, cs)
 		}
 	}
-	edges := edgesWithFact(gf, branchFork(true))
-	ok := len(edges) > 0 && len(stores) > 0
+	// the iteration over `from`: in GatherFrom, or in the producer of a stored value
+	iterOver := func(g *core.FuncInfo, coll *types.Var) *core.Iteration {
+		var it *core.Iteration
+		g.InspectOwn(func(n ast.Node) bool {
+			switch n.(type) {
+			case *ast.ForStmt, *ast.RangeStmt:
+				if y, ok := c01IterationOf(g, n.(ast.Stmt)); ok && it == nil && y.Coll != nil && canonVar(g, varOf(g, y.Coll)) == coll {
+					it = y
+				}
+			}
+			return true
+		})
+		return it
+	}
+	w := c01Effect{Caller: gf, G: gf}
+	it := iterOver(gf, from)
+	var resultStore *core.CallSite
+	if it == nil {
+		for _, cs := range stores {
+			if cs.Name != c03VecSet || len(cs.Call.Args) != 2 {
+				continue
+			}
+			pv, ok := c01Producer(gf, cs.Call.Args[1])
+			if !ok || pv.G.Type.Params == nil {
+				continue
+			}
+			for _, fl := range pv.G.Type.Params.List {
+				for _, nm := range fl.Names {
+					pvar, _ := pv.G.Info().Defs[nm].(*types.Var)
+					if _, cv, bound := pv.bindVar(pvar); bound && cv == from && it == nil {
+						if y := iterOver(pv.G, pvar); y != nil {
+							it, w, resultStore = y, pv, cs
+						}
+					}
+				}
+			}
+		}
+	}
+	g := w.G
+	if it == nil || !it.FromZero || it.Head == nil || len(it.Head.Succs) == 0 {
+		c.Fail(key, "T17 Typestate", gf.Pos(), "GatherFrom does not iterate over all the creator's branches (`from`) from the first one: "+bad)
+		return
+	}
+	res := c01Resolver(g)
+	// fork test of this iteration's branch in the other vector
+	branchFork := func(want bool) func(core.Fact) bool {
+		return c01FactThrough(g, func(ft core.Fact) bool {
+			en, truth, ok := x.forkTest(w, ft)
+			return ok && truth == want && !en.mine && en.fn == g && it.IsElem(en.index, res)
+		})
+	}
+	isBranchEntry := func(e ast.Expr) bool {
+		en, ok := x.entryOf(w, e)
+		return ok && !en.mine && en.fn == g && it.IsElem(en.index, res)
+	}
+	body := core.Point{B: it.Head.Succs[0], I: 0}
+	endOfIter := func(b *cfg.Block) bool { return b == it.Head || (it.Done != nil && b == it.Done) }
+	forkEdge, cleanEdge := g.GuardEdges(branchFork(true)), g.GuardEdges(branchFork(false))
+	tested := func(b *cfg.Block, s int) bool { return forkEdge(b, s) || cleanEdge(b, s) }
+	// R1
+	if path, found := (core.PathQuery{F: g, From: body, AvoidEdge: tested, TargetBlock: endOfIter, TargetExit: true}).Find(); found {
+		c.Fail(key, "T17 Typestate (R1: every branch is tested)", it.Stmt.Pos(), "a branch of the creator can be merged without being tested for the fork marker ("+g.DescribePath(path)+"): "+bad)
+		return
+	}
+	// R2: the sinks of the merged value in g — stores into self's entry, or (producer view) results
+	type sink struct {
+		pt   core.Point
+		val  ast.Expr
+		good bool
+	}
+	var sinks []sink
+	if g == gf {
+		for _, cs := range stores {
+			s := sink{pt: cs.Pt}
+			if len(cs.Call.Args) >= 1 && canonVar(gf, varOf(gf, cs.Call.Args[0])) == to {
+				if methodNamed(cs.Name, "SetForkDetected") {
+					s.good = true
+				} else if len(cs.Call.Args) == 2 {
+					s.val = cs.Call.Args[1]
+				}
+			}
+			sinks = append(sinks, s)
+		}
+	} else {
+		for _, rp := range g.ReturnPoints() {
+			s := sink{pt: rp}
+			if r := rp.Node().(*ast.ReturnStmt); len(r.Results) == 1 {
+				s.val = r.Results[0]
+			}
+			sinks = append(sinks, s)
+		}
+	}
+	edges := edgesWithFact(g, branchFork(true))
+	ok := len(edges) > 0 && len(sinks) > 0
 	why := "no store of the merged entry / no fork test"
 	for _, e := range edges {
 		start := blockEntry(e.B.Succs[e.Succ])
 		var good, all []core.Point
-		for _, cs := range stores {
-			all = append(all, cs.Pt)
-			if len(cs.Call.Args) < 1 || canonVar(gf, varOf(gf, cs.Call.Args[0])) != to {
+		for _, s := range sinks {
+			all = append(all, s.pt)
+			if s.good {
+				good = append(good, s.pt)
 				continue
 			}
-			if methodNamed(cs.Name, "SetForkDetected") {
-				good = append(good, cs.Pt)
+			if s.val == nil {
 				continue
 			}
-			if len(cs.Call.Args) != 2 {
+			if x.isMarker(g, s.val) || isBranchEntry(s.val) {
+				good = append(good, s.pt)
 				continue
 			}
-			val := cs.Call.Args[1]
-			if isMarker(gf, val) || isBranchEntry(val) {
-				good = append(good, cs.Pt)
-				continue
-			}
-			// an accumulator: on every path from the edge to the store it is set to the branch entry, and
+			// an accumulator: on every path from the edge to the sink it is set to the branch entry, and
 			// after that assignment no other assignment of it is reachable
-			acc := varOf(gf, val)
+			acc := varOf(g, s.val)
 			if acc == nil {
 				continue
 			}
 			var takes []core.Point
 			okAcc := true
-			for _, a := range assignsToVar(gf, acc) {
-				if a.RHS != nil && isBranchEntry(a.RHS) && (a.Pt == start || c03ReachesFrom(gf, start, a.Pt)) {
+			for _, a := range assignsToVar(g, acc) {
+				if a.RHS != nil && isBranchEntry(a.RHS) && (a.Pt == start || c03ReachesFrom(g, start, a.Pt)) {
 					takes = append(takes, a.Pt)
 				}
 			}
 			for _, t := range takes {
-				for _, b := range assignsToVar(gf, acc) {
-					if b.Pt != t && gf.CanReach(t, b.Pt) {
+				for _, b := range assignsToVar(g, acc) {
+					if b.Pt != t && g.CanReach(t, b.Pt) {
 						okAcc = false
 					}
 				}
@@ -294,26 +475,38 @@ func c03Gather(c *core.Ctx, forkTest func(*core.FuncInfo, core.Fact) (*types.Var
 			if len(takes) == 0 || !okAcc {
 				continue
 			}
-			if _, found := (core.PathQuery{F: gf, From: start, Avoid: core.PointSet(takes...), Target: core.PointSet(cs.Pt)}).Find(); !found {
-				good = append(good, cs.Pt)
+			if _, found := (core.PathQuery{F: g, From: start, Avoid: core.PointSet(takes...), Target: core.PointSet(s.pt)}).Find(); !found {
+				good = append(good, s.pt)
 			}
 		}
 		isGood := core.PointSet(good...)
-		// every path from the edge to the end passes a good store before any other store
-		path, found := core.PathQuery{F: gf, From: start, Avoid: isGood, Target: func(pt core.Point) bool { return core.PointSet(all...)(pt) && !isGood(pt) }, TargetExit: true}.Find()
+		// every path from the edge to the end passes a good sink before any other sink
+		path, found := core.PathQuery{F: g, From: start, Avoid: isGood, Target: func(pt core.Point) bool { return core.PointSet(all...)(pt) && !isGood(pt) }, TargetExit: true}.Find()
 		if isGood(start) {
 			found = false
 		}
 		if found {
-			ok, why = false, "from the fork-detected edge the merged entry is not (only) set to a fork-detected value ("+gf.DescribePath(path)+")"
+			ok, why = false, "from the fork-detected edge the merged entry is not (only) set to a fork-detected value ("+g.DescribePath(path)+")"
+		}
+		if g != gf {
+			continue // a result ends the function
 		}
 		// and nothing is stored after it
-		for _, g := range good {
-			if p2, f2 := (core.PathQuery{F: gf, From: g, FromAfter: true, Target: core.PointSet(all...)}).Find(); f2 {
+		for _, gd := range good {
+			if p2, f2 := (core.PathQuery{F: g, From: gd, FromAfter: true, Target: core.PointSet(all...)}).Find(); f2 {
 				// a later store is harmless only when it can be reached solely from non-fork iterations; a
 				// store in a loop can be reached again, so demand that the function is left first
-				ok, why = false, "after the fork-detected value was stored the merged entry can be stored again ("+gf.DescribePath(p2)+")"
+				ok, why = false, "after the fork-detected value was stored the merged entry can be stored again ("+g.DescribePath(p2)+")"
 			}
+		}
+	}
+	if g != gf && resultStore != nil {
+		// the producer's result goes into entry `to` and is not overwritten afterwards
+		if len(resultStore.Call.Args) < 1 || canonVar(gf, varOf(gf, resultStore.Call.Args[0])) != to {
+			ok, why = false, "the merged value is not stored into the creator's entry"
+		}
+		if p2, f2 := (core.PathQuery{F: gf, From: resultStore.Pt, FromAfter: true, Target: core.PointSet(core.Points(stores)...)}).Find(); f2 {
+			ok, why = false, "after the merged value was stored the entry can be stored again ("+gf.DescribePath(p2)+")"
 		}
 	}
 	c.Check(ok, key, "T17 Typestate (R1 every branch is tested, R2 the fork edge fixes the result)", gf.Pos(), "each branch of `from` is tested; on the branch.IsForkDetected() edge the merged entry takes a fork-detected value and is not overwritten afterwards", bad+": "+why)
